@@ -25,9 +25,12 @@ RULE = ('template trees over 12 node kinds (constant, table hold/jump/linear, po
         'parameterised times / voltages / counts / ranges, parameter mappings incl. shadowing and loop-index routing, '
         'channel renaming and dropping inside the tree and at the top, for-loops with empty / single / negative-step '
         'ranges, repetition counts 0..3 or following the loop index; malformed stream: missing parameter, non-integer '
-        'count / range, zero step, non-monotone table, unequal durations.  Grid: every multiple of 1/4 up to the '
+        'count / range, zero step, non-monotone table, unequal durations; constant-folding stream: equal-voltage constant '
+        'siblings around reversed / count-1 repeated / reversed-repeated sequences of ramps; tables with one, two or '
+        '(3 %) three entries at the final time.  Grid: every multiple of 1/4 up to the '
         'duration (sub-sampled to <= 40 points, all junctions of the generated trees lie on it) + off-grid points + '
-        't = duration.  Non-trivial = tree with >= 3 nodes that instantiates to a program.')
+        't = duration; the same grid read through plotting.render(sample_rate=4) (+ all rendered points compared with '
+        'get_sampled).  Non-trivial = tree with >= 3 nodes that instantiates to a program.')
 TRUSTED = [
     'Coq 8.16.1 kernel + vm_compute (no native_compute)',
     'harness: generator, construction of the qupulse objects from the JSON tree, exact float->rational conversion, '
@@ -38,7 +41,7 @@ TRUSTED = [
 ASSUMPTIONS = [
     'generated numbers are dyadic with small numerators so that numpy float arithmetic is exact',
     'checked_int_cast tolerance (1e-6) is outside the generated domain',
-    'no zero-length linear table segment; channel mappings injective on the complete mapping',
+    'no zero-length linear table segment (tbl_guard); channel mappings injective on the complete mapping',
     'measurements, parameter constraints, to_single_waveform, volatile parameters are not exercised (C02/C03/C05/C15)',
 ]
 
@@ -565,20 +568,24 @@ def search_failing(ctx, broken):
 
 MANIFEST = {
     'level_text': 'Proof (staged): by induction on the template tree (unbounded nesting, parameters, ranges, mappings) the '
-                  'program built by the operational model of create_program plays the independent denotation: FULL for '
-                  'the core fragment (single-channel constants under sequence / repetition / for-loop / mapping incl. '
-                  'dropped channels / time reversal; C01_denotes_core); _partial for all other node kinds (table, point, '
-                  'atomic multi-channel, atomic arithmetic, parallel channel, scalar arithmetic): proved relative to the '
-                  'atomic obligation atoms_ok and under guard_single_trafo (C01_denotes_partial); _refuted + guard for '
-                  'the known finding that ParallelChannelPT chains the enclosing transformation first '
-                  '(C01_denotes_refuted). The model is tied to /repo by an exact correspondence check (template trees '
-                  'over 12 node kinds; samples on junction-aligned and off-grid points), and the denotation is evaluated '
-                  'directly on the implementation as the specification oracle.',
-    'level_note': 'Not proved, only tested on every case: to_waveform + get_sampled equals the program meaning `play` '
-                  '(C01_sampling_statement); the atomic obligation for tables / points / multi-channel atoms and '
-                  'transformed atoms; error correspondence. Not modelled: FunctionPT, time-dependent transformation '
-                  'values, to_single_waveform, measurements, constraints, volatile parameters. Float rounding is '
-                  'modelled away (dyadic inputs). Trusted: Coq kernel, harness, numpy/sympy on the generated domain.',
+                  'program built by the operational model of create_program plays the independent denotation '
+                  '(C01_denotes_partial): every composite node kind, any nesting of scalar arithmetic (transformation '
+                  'composition lemma), atoms ConstantPT / TablePT (entry de-duplication, constant detection, hold / jump / '
+                  'linear) / PointPT incl. enclosing transformation and constant short-cut, with no hypothesis about '
+                  'the model left for such trees (C01_denotes_simple_atoms); guards = the two known findings only '
+                  '(ParallelChannelPT under a transformation: C01_denotes_refuted; table with a triple final time point: '
+                  'C01_table_final_refuted) plus the exclusion of zero-length linear segments. to_waveform + get_sampled '
+                  '= the program meaning is proved for all well-formed program trees (C01_sampling_loops) and for '
+                  'create_program outputs (C01_sampling_partial). The model is tied to /repo by an exact correspondence '
+                  'check (12 node kinds; get_sampled and plotting.render samples on junction-aligned and off-grid '
+                  'points), and the denotation is evaluated directly on the implementation as the specification oracle.',
+    'level_note': '_partial: for AtomicMultiChannelPT / ArithmeticAtomicPT atoms the atomic obligation (atom_sem) is a '
+                  'hypothesis, validated by the correspondence only; C01_sampling_partial assumes that to_waveform '
+                  'succeeds and that all leaves define one channel set (guaranteed by qupulse constructors, not by the '
+                  'model). Open: error correspondence (C01_errors_statement is false as stated: eager scope evaluation '
+                  'in ArithmeticPT). Not modelled: FunctionPT, time-dependent transformation values, to_single_waveform, '
+                  'measurements, constraints, volatile parameters. Float rounding is modelled away (dyadic inputs). '
+                  'Trusted: Coq kernel, harness, numpy/sympy on the generated domain.',
     'technique': 'Coq proof by induction on the template tree over an operational model + exact correspondence check '
                  '+ denotational oracle evaluated in Coq on the implementation\'s samples',
     'design_ref': 'DESIGN.md §5 C01, §4.4, Appendix D3',
